@@ -192,3 +192,11 @@ info('C11',
      'plus_identity, apply by every compression method within the reported error, error order of make_U_I/II.',
      ['MPO numerics; infinite MPOs on a window; W tensors without identity markers: not covered'],
      [])
+info('C13',
+     'B (bounded, not proof): run() postconditions of two-site / single-site DMRG x mixers x diag_method x chi limits on chains of '
+     '3-8 sites against exact diagonalisation in the charge sector of the initial state: normalised, canonical, same sector, reported '
+     'E = <H> within truncation, E >= E_exact, untruncated two-site DMRG with mixer exact in energy and state; VUMPS engines on the '
+     'infinite transverse-field Ising chain against the analytic energy per site.',
+     ['convergence in general: this family cannot decide it', 'sweep schedules and environment bookkeeping as deductive obligations '
+      '(DESIGN 4/C13): not built in this round; the deductive contribution to C13 is nil and the evidence says so'],
+     [])
